@@ -1220,6 +1220,9 @@ impl CommandExecutor for DrawExecutor {
                     1 => self.terminal_resolution = TerminalResolution::Medium,
                     _ => return Err(anyhow::anyhow!("SetResolution unknown/unsupported argument: {}", parameters[0])),
                 }
+                // the canvas has to follow the resolution, get_picture_data reports it with the new size
+                let res = self.get_resolution();
+                self.screen.resize((res.width * res.height) as usize, 1);
                 match parameters[1] {
                     0 => { // no change
                     }
